@@ -330,3 +330,125 @@ Proof.
   destruct H1 as (Hd1 & Hit1 & Hr1). destruct s1 as [v1 it1]. cbn [fst snd] in *. subst it1.
   destruct (hops2_keep_dinv ops v1 it s' Hd1 Hr1 (Forall_inv_tail Hok) H) as (A & B & _). auto.
 Qed.
+
+(** ** Failed operations (C10) *)
+Theorem failed_insert_on_dinv : forall v it sec rr s' e, dinv v -> m_insert_rr sec rr (v, it) = (s', Err e) -> s' = (v, it).
+Proof.
+  intros v it sec rr s' e Hd H. unfold m_insert_rr, insert_prologue, cbind, getv, cret in H. cbn [fst snd] in H. rewrite (di_mc _ Hd) in H.
+  apply insert_core_err in H. exact H.
+Qed.
+
+Theorem failed_insert_fresh : forall p v it sec rr s' e, bytes_ok p -> parse p = Ok v -> m_insert_rr sec rr (v, it) = (s', Err e) ->
+  exists dv, s' = (dv, it) /\ dinv dv /\ uncompress p = Ok (pp_packet dv).
+Proof.
+  intros p v it sec rr s' e Hb Hp H.
+  destruct (insert_prologue_fresh p v it Hb Hp) as (q & v' & Hu & Hp' & Hpk' & Hpro).
+  destruct (prologue_dinv p v it Hb Hp) as (dv & Hpro2 & Hd & _). rewrite Hpro in Hpro2. inversion Hpro2; subst dv.
+  unfold m_insert_rr, cbind in H. rewrite Hpro in H. apply insert_core_err in H.
+  exists (decompressed_view v'). split; [exact H|]. split; [exact Hd|]. rewrite Hu. f_equal.
+  unfold decompressed_view, pp_update. cbn. symmetry. exact Hpk'.
+Qed.
+
+(** histories in which failing operations are tolerated: a failed insertion leaves the state as it was, the setters and
+    [recompute] cannot fail on these states *)
+Fixpoint run_hops2_tol (ops : list hop2) (s : st) : st * res unit :=
+  match ops with
+  | [] => (s, Ok tt)
+  | o :: ops' => match run_hop2 o s with (s1, Ok _) => run_hops2_tol ops' s1 | (s1, Err _) => run_hops2_tol ops' s1 | (s1, Panic x) => (s1, Panic x) end
+  end.
+
+Lemma setter_err_state f v it s1 e : lift_v f (v, it) = (s1, Err e) -> s1 = (v, it).
+Proof. unfold lift_v. cbn [fst snd]. destruct (f v); intros H; inversion H. reflexivity. Qed.
+
+Theorem hops2_tol_keep_dinv : forall ops v it s' r, dinv v -> is_response (pp_packet v) -> Forall hop2_ok ops ->
+  run_hops2_tol ops (v, it) = (s', r) -> (forall x, r <> Panic x) -> dinv (fst s') /\ snd s' = it /\ is_response (pp_packet (fst s')).
+Proof.
+  induction ops as [|o ops IH]; intros v it s' r Hd Hr Hok H Hnp; cbn [run_hops2_tol] in H.
+  - inversion H; subst. auto.
+  - destruct (run_hop2 o (v, it)) as [s1 [u|e|x]] eqn:E.
+    + destruct u. destruct (hop2_keeps_dinv o v it s1 Hd Hr (Forall_inv Hok) E) as (Hd1 & Hit1 & Hr1).
+      destruct s1 as [v1 it1]. cbn [fst snd] in *. subst it1. apply (IH v1 it s' r Hd1 Hr1 (Forall_inv_tail Hok) H Hnp).
+    + assert (Es : s1 = (v, it)).
+      { destruct o as [sec rx| |n|n|n| |n]; cbn [run_hop2] in E;
+          [exact (failed_insert_on_dinv _ _ _ _ _ _ Hd E)|rewrite (recompute_keeps_dinv v it Hd) in E; discriminate| | | | |];
+          exact (setter_err_state _ _ _ _ _ E). }
+      subst s1. apply (IH v it s' r Hd Hr (Forall_inv_tail Hok) H Hnp).
+    + inversion H; subst. exfalso. apply (Hnp x). reflexivity.
+Qed.
+
+(** none of these operations reaches a Panic outcome of the model on such a state *)
+Lemma insert_no_panic : forall v it sec rr s' x, dinv v -> sec = SAnswer \/ sec = SNameServers \/ sec = SAdditional ->
+  m_insert_rr sec rr (v, it) <> (s', Panic x).
+Proof.
+  intros v it sec rr s' x [Hmc Hb Hfix (f & Hf & Hsv)] Hsec H.
+  unfold m_insert_rr, insert_prologue, cbind, getv, cret in H. cbn [fst snd] in H. rewrite Hmc in H.
+  set (q := pp_packet v) in *.
+  destruct (plain_parts_of q f Hb Hf Hfix) as (w & qls & qt & A & Nn & R & s1 & s2 & s3 & P).
+  destruct (parts_build_wf q w qls qt A Nn R s1 s2 s3 Hb P) as (Lq & _).
+  destruct (parse_offsets q f w qls qt A Nn R s1 s2 s3 Hb Hf P) as (Oa & On & Or).
+  destruct Hsv as (_ & _ & _ & Von & Vor & _).
+  pose proof (pp_len _ _ _ _ _ _ _ _ _ _ P) as P12.
+  unfold insert_core, cbind, getv, clift, putv in H. cbn [fst snd] in H. fold q in H.
+  destruct ((DNS_MAX_UNCOMPRESSED_SIZE <? length q) || (DNS_MAX_UNCOMPRESSED_SIZE - length q <? length rr)); [inversion H|].
+  assert (Hinc : exists r1, rrcount_inc q sec = r1 /\ (forall y, r1 <> Panic y) /\ forall p1, r1 = Ok p1 -> length p1 = length q).
+  { eexists. split; [reflexivity|]. split; [|intros p1 E; eapply rrcount_inc_length; exact E].
+    intros y. unfold rrcount_inc. assert (Hco : count_offset sec = Ok (sec_co sec)) by (destruct Hsec as [->|[->| ->]]; reflexivity).
+    rewrite Hco. cbn [bind]. assert (Hco2 : sec_co sec + 2 <= length q) by (destruct Hsec as [E|[E|E]]; rewrite E; cbn; lia).
+    destruct (u16_exists q (sec_co sec) Hco2) as (c & Hc).
+    rewrite (proj2 (be16_at_u16 q (sec_co sec) 612%N c) Hc). cbn [bind].
+    destruct (section_eqb sec SQuestion && (1 <=? c)%N); [discriminate|]. destruct (65535 <=? c)%N; [discriminate|].
+    unfold write_at. cbn [length be16_bytes]. destruct (sec_co sec + 2 <=? length q) eqn:E; [discriminate|lia]. }
+  destruct Hinc as (r1 & Er1 & Hnp1 & Hl1). rewrite Er1 in H.
+  destruct r1 as [p1| |y]; [|inversion H|exact (Hnp1 y eq_refl)].
+  specialize (Hl1 p1 eq_refl).
+  assert (Hio : exists ins, insertion_offset v sec = Ok ins /\ ins <= length q).
+  { unfold insertion_offset. fold q. rewrite Von, Vor, On, Or, Lq.
+    destruct Hsec as [->|[->| ->]]; cbn [opt_or].
+    - destruct (length Nn); cbn [Nat.ltb Nat.leb opt_or]; [destruct (length R); cbn [Nat.ltb Nat.leb]|]; eexists; split; try reflexivity; lia.
+    - destruct (length R); cbn [Nat.ltb Nat.leb]; eexists; split; try reflexivity; lia.
+    - eexists. split; [reflexivity|lia]. }
+  destruct Hio as (ins & Eio & Hle). rewrite Eio in H. destruct (length p1 <? ins) eqn:E; [lia|].
+  destruct Hsec as [->|[->| ->]]; inversion H.
+Qed.
+
+Lemma dinv_len v : dinv v -> 12 <= length (pp_packet v).
+Proof.
+  intros [_ Hb Hfix (f & Hf & _)]. destruct (plain_parts_of _ f Hb Hf Hfix) as (w & qls & qt & A & Nn & R & s1 & s2 & s3 & P).
+  exact (pp_len _ _ _ _ _ _ _ _ _ _ P).
+Qed.
+
+Lemma lift_setter_no_panic (pk : bytes -> res bytes) v it s' x :
+  nopanic (pk (pp_packet v)) -> lift_v (fun v0 => p <- pk (pp_packet v0) ;; Ok (pp_with_packet v0 p)) (v, it) <> (s', Panic x).
+Proof.
+  unfold lift_v, nopanic. cbn [fst snd]. destruct (pk (pp_packet v)) as [p| |y]; cbn [bind]; intros Hn H; inversion H. contradiction.
+Qed.
+
+Theorem hop2_no_panic : forall o v it s' x, dinv v -> hop2_ok o -> run_hop2 o (v, it) <> (s', Panic x).
+Proof.
+  intros o v it s' x Hd Ho. pose proof (dinv_len v Hd) as H12.
+  destruct o as [sec rx| |n|n|n| |n]; cbn [run_hop2 hop2_ok] in *.
+  - destruct Ho as [_ Hsec]. apply insert_no_panic; assumption.
+  - rewrite (recompute_keeps_dinv v it Hd). discriminate.
+  - apply (lift_setter_no_panic (fun p => pk_set_tid p n)). apply (setters_total _ n H12).
+  - apply (lift_setter_no_panic (fun p => pk_set_rcode p n)). apply (setters_total _ n H12).
+  - apply (lift_setter_no_panic (fun p => pk_set_opcode p n)). apply (setters_total _ n H12).
+  - apply (lift_setter_no_panic (fun p => pk_set_response p true)). apply (setters_total _ 0%N H12).
+  - apply (lift_setter_no_panic (fun p => pk_set_flags p n)). apply (setters_total _ n H12).
+Qed.
+
+(** every history over these operations, failing steps included, runs to the end without a Panic outcome and keeps the invariant *)
+Theorem hops2_tol_total : forall ops v it, dinv v -> is_response (pp_packet v) -> Forall hop2_ok ops ->
+  exists s', run_hops2_tol ops (v, it) = (s', Ok tt) /\ dinv (fst s') /\ snd s' = it /\ is_response (pp_packet (fst s')).
+Proof.
+  induction ops as [|o ops IH]; intros v it Hd Hr Hok; cbn [run_hops2_tol].
+  - exists (v, it). auto.
+  - destruct (run_hop2 o (v, it)) as [s1 [u|e|x]] eqn:E.
+    + destruct u. destruct (hop2_keeps_dinv o v it s1 Hd Hr (Forall_inv Hok) E) as (Hd1 & Hit1 & Hr1).
+      destruct s1 as [v1 it1]. cbn [fst snd] in *. subst it1. apply (IH v1 it Hd1 Hr1 (Forall_inv_tail Hok)).
+    + assert (Es : s1 = (v, it)).
+      { destruct o as [sec rx| |n|n|n| |n]; cbn [run_hop2] in E;
+          [exact (failed_insert_on_dinv _ _ _ _ _ _ Hd E)|rewrite (recompute_keeps_dinv v it Hd) in E; discriminate| | | | |];
+          exact (setter_err_state _ _ _ _ _ E). }
+      subst s1. apply (IH v it Hd Hr (Forall_inv_tail Hok)).
+    + exfalso. exact (hop2_no_panic o v it s1 x Hd (Forall_inv Hok) E).
+Qed.
